@@ -235,6 +235,13 @@ func ScanFooter(options *StoreOptions, fref *FileRef, fileName string,
 				return nil, err
 			}
 
+			// The child footers were created by json.Unmarshal with a
+			// zero ref-count; give them the ref-count that their parent
+			// holds, like child footers built in memory have, so that
+			// closing a child collection snapshot taken from this footer
+			// does not release the child's segments under the parent.
+			f.initChildFooterRefs()
+
 			// json.Unmarshal would have just loaded the map.
 			// We now need to load each segment into the map.
 			// Also recursively load child footer segment stacks.
@@ -437,6 +444,17 @@ func (f *Footer) DecRef() {
 		f.ss = nil
 	}
 	f.m.Unlock()
+}
+
+// initChildFooterRefs recursively sets the ref-count that a footer
+// holds on each of its child footers, for footers loaded from a file.
+func (f *Footer) initChildFooterRefs() {
+	for _, childFooter := range f.ChildFooters {
+		if childFooter.refs <= 0 {
+			childFooter.refs = 1
+		}
+		childFooter.initChildFooterRefs()
+	}
 }
 
 // Length returns the length of this footer
